@@ -1493,6 +1493,12 @@ Proof.
   cbv zeta in H. apply H in E; [exact E|vm_compute; discriminate|vm_compute; reflexivity|discriminate].
 Qed.
 
+(* The low-S threshold belongs to the curve of the run: the halves of two group orders differ, so a threshold taken
+   from secp256k1 leaves values un-negated that are in the upper half of the order of P-256. *)
+Lemma foreign_low_s_threshold_refuted :
+  exists s, 0 < s < cq p256 /\ (cq secp256k1 / 2 <? s) = false /\ cq p256 / 2 < s.
+Proof. exists (cq p256 / 2 + 1). vm_compute. repeat split; reflexivity. Qed.
+
 Print Assumptions weights_sum_secret.
 Print Assumptions keygen_consistent.
 Print Assumptions kg_secret_no_dealer_dropped.
@@ -1530,3 +1536,4 @@ Print Assumptions shares_of_select.
 Print Assumptions recover_correct.
 Print Assumptions finalize_recovers_key.
 Print Assumptions ex_recover.
+Print Assumptions foreign_low_s_threshold_refuted.
